@@ -111,6 +111,11 @@ func (p *c18Plan) amount() string {
 
 func (p *c18Plan) paramsStep() c18Step {
 	st := c18Step{Op: "params", Enabled: !p.r.Chance(1, 8), Allowed: []int{}}
+	if p.r.Chance(1, 25) {
+		// refused by Params.Validate: nothing changes
+		st.Share = []string{"1000000000000000001", "-1", "2000000000000000000"}[p.r.Intn(3)]
+		return st
+	}
 	if p.r.Chance(3, 4) {
 		st.Share = c18Shares[p.r.Intn(len(c18Shares))]
 	} else {
@@ -131,10 +136,13 @@ func (p *c18Plan) paramsStep() c18Step {
 
 // execMsg builds a top-level execute on contract id c by signer.
 func (p *c18Plan) execMsg(c, signer int) c18Msg {
-	m := c18Msg{K: "exec", C: c, Good: !p.r.Chance(1, 12)}
+	m := c18Msg{K: "exec", C: c, Good: !p.r.Chance(1, 30)}
 	if p.isContract(c) && p.cs.Contracts[c-idContract0].Kind == "reflect" {
 		m.Nested = 1 + p.anyContract()
-		if p.r.Chance(1, 10) {
+		for try := 0; try < 4 && p.cs.Contracts[m.Nested-1-idContract0].Kind == "reflect"; try++ {
+			m.Nested = 1 + p.anyContract() // the dispatched increment only works on a hello contract
+		}
+		if p.r.Chance(1, 20) {
 			m.Nested = 1 + idNoContr
 		}
 	}
@@ -211,6 +219,11 @@ func (p *c18Plan) execTx() c18Step {
 func (p *c18Plan) manageTx() c18Step {
 	ci := p.r.Intn(p.nC())
 	c := idContract0 + ci
+	if p.r.Chance(1, 15) {
+		// registry message about an address that is no contract
+		k := []string{"reg", "upd", "cancel"}[p.r.Intn(3)]
+		return c18Step{Op: "tx", Signer: p.anySigner(), Fee: p.fee(), Msgs: []c18Msg{{K: k, C: idNoContr, W: p.anyWithdrawer(ci)}}}
+	}
 	signer := p.anySigner()
 	if a := p.authority(ci); isSigner(a) && p.r.Chance(2, 3) {
 		signer = a
